@@ -37,7 +37,7 @@ def validUuidB (u : Str) : Bool :=
   | _ => false
 
 def validLitStringB : Str → Bool
-  | '"' :: body => litStringTail body == some (body, [])
+  | '"' :: body => litStringTail (body.length + 1) body == some (body, [])
   | _ => false
 
 def validLinesB (k : Nat) (ls : List Line) : Bool := ls.all (fun l => !(inner k l).contains '\n')
